@@ -8,7 +8,7 @@ from vt.gen import txg, rxg, cfgg, fag
 PROP = 'C16'
 TITLE = 'print then parse is the identity'
 SHARDS = {'quick': 8, 'thorough': 32}
-TIMEOUT = {'quick': 600, 'thorough': 3000}
+TIMEOUT = {'quick': 420, 'thorough': 3000}
 REQUIRED = ['dfa_roundtrip', 'nfa_roundtrip', 'pda_roundtrip', 'tm_roundtrip', 'regexp_roundtrip', 'regexp_simple_roundtrip', 'cfg_simple_roundtrip']
 EXHAUSTIVE_NOTE = 'all regexp trees with <=6 nodes over {0,1,a,b} through all three printers; automata and grammars are sampled'
 RULE = ('cases are objects inside the domain of the text formats: random DFA/NFA/PDA/TM (\\w+ state names that are not keywords, single-character symbols, stack/tape symbols from '
